@@ -268,12 +268,23 @@ func c01Final(w *SrvWorld, prop string) *Violation {
 
 // RunSrv executes one server-side plan: workload phase, drain, final oracle, teardown.
 func RunSrv(plan *SrvPlan, tape *Tape, searchSeed uint64, prop string, online func(*SrvWorld) *Violation, final func(*SrvWorld) *Violation, post func(*SrvWorld, *RunResult)) *RunResult {
+	return RunSrvQ(plan, tape, searchSeed, prop, online, nil, final, post)
+}
+
+// RunSrvQ is RunSrv with an extra oracle evaluated at the quiescence that ends the workload phase (gates still as the plan says).
+func RunSrvQ(plan *SrvPlan, tape *Tape, searchSeed uint64, prop string, online func(*SrvWorld) *Violation, atQ func(*SrvWorld) *Violation, final func(*SrvWorld) *Violation, post func(*SrvWorld, *RunResult)) *RunResult {
 	res := &RunResult{Property: prop, Family: plan.Family}
 	sim := NewSim(tape, NewRNG(searchSeed))
 	w := NewSrvWorld(sim, plan)
 	w.online = online
 	// phase 0: workload (+ faults)
 	sim.RunPhase(w, 0, false)
+	if sim.Viol == nil && sim.Steps < sim.MaxSteps && atQ != nil {
+		w.peerReceive()
+		if v := atQ(w); v != nil {
+			sim.Viol = v
+		}
+	}
 	// phase 1: drain — faults off, gates open eagerly
 	if sim.Viol == nil {
 		w.phase = 1
